@@ -64,6 +64,10 @@ def gen_case(rng, tier):
     if kind in ('managed', 'fakemgr'):
         # bumps[i] = how many foreign blocks are taken from the shared pointer before op i
         case['bumps'] = [rng.choice([0, 0, 0, 1, 2]) for _ in range(nops)]
+        if rng.random() < 0.3 and nops > 1:
+            # sync() + unproxy_results() in the MIDDLE of the history: the store goes on being
+            # the same table afterwards
+            case['mid'] = rng.randrange(1, nops)
     return case
 
 
@@ -115,6 +119,9 @@ def run_impl(case):
         steps = []
         for i, (t, s, v) in enumerate(case['ops']):
             if kind in ('managed', 'fakemgr'):
+                if case.get('mid') == i:
+                    st.sync()
+                    st.unproxy_results()
                 st.alloc_pointer.value += case['bumps'][i] * B
                 table = st.local
             try:
